@@ -6,6 +6,7 @@ cd /verif/coq
 mkdir -p /verif/_work /verif/ocaml/gen
 exec 9>/verif/_work/.lock-coq
 flock 9
+/verif/tools/coqproject.sh
 if [ ! -f Makefile ] || [ _CoqProject -nt Makefile ]; then
   coq_makefile -f _CoqProject -o Makefile >/dev/null || exit 3
 fi
